@@ -237,7 +237,7 @@ def finishP {σ} (o : Opts) (depth : Nat) (e : Entry) :
   | (none, st', w') =>
     if depth < o.minDepth then (none, st', w')
     else if (o.files ∧ !e.file) ∨ (!o.files ∧ o.dirs ∧ !e.dir) then (none, st', w')
-    else if e.dir ∧ o.contentsFirst then (none, { st' with deferred := e :: st'.deferred }, w')
+    else if e.dir ∧ o.contentsFirst then (none, { st' with deferred := (depth, e) :: st'.deferred }, w')
     else (some (.ok e), st', w')
 
 theorem process_eq {σ} (snap : Snap) (o : Opts) (preOp : Entry → σ → Outcome Unit × σ)
@@ -357,9 +357,9 @@ theorem nextLoop_spec {σ} {snap : Snap} (wf : SnapWF snap) {o : Opts} (hfo : o.
   | succ f ih =>
     intro st w hst hG
     -- yielding a deferred entry
-    have hdefer : ∀ (d : Entry) (ds : List Entry), st.deferred = d :: ds →
+    have hdefer : ∀ (d : Nat × Entry) (ds : List (Nat × Entry)), st.deferred = d :: ds →
         YieldOk snap (G0 snap st) st.started
-          (some (.ok d), { st with deferred := ds }) := by
+          (some (.ok d.2), { st with deferred := ds }) := by
       intro d ds hd
       refine ⟨by simp, fun e _ => ⟨hst, ?_, rfl⟩⟩
       simp only [G0, hd, List.length_cons]
